@@ -608,6 +608,14 @@ class Repo:
         """Keys of the private helpers whose bodies the normal form (sa/inline.py) expanded into f."""
         return set(self.expansion.get("into", {}).get(f.key, ()))
 
+    def transparent_callers(self, f: FuncInfo) -> set[str] | None:
+        """If f is a transparent helper all of whose calls were expanded (sa/inline.py): the keys of the functions its body
+        now is a part of.  None otherwise (f is a function in its own right)."""
+        if f.key in self.expansion.get("still_called", ()):
+            return None
+        out = {k for k, v in self.expansion.get("into", {}).items() if f.key in v}
+        return out or None
+
     def find_func(self, key: str) -> FuncInfo | None:
         mod, _, local = key.partition(":")
         if mod not in self.modules:
